@@ -11,6 +11,9 @@ DIR = os.path.join(C.BUILD, 'c18')
 TITLES = ['Main', 'Second sheet', '\U00020bb7 S3 \U0001F4CA', "T4", 'Ünï', 'Last']       # the third one has characters beyond U+FFFF
 
 
+SHARED = I.Executor()
+
+
 def gen_value(rng):
     return rng.choice([1, 0, -7, 123456789, 1e16, -2.5e17, 1e20, 6.02214076e23, 2.5, -0.125, 1e-7, 0.1 + 0.7, 0.1 + 0.2 + 0.3, 1.4 * 3, 0.57 * 100, 1 / 3, True, False, 'text', '  indented', ' ', 'ends ', 'it\'s "q"', 'a\\b', 'line1\nline2',
                        '=A1+1', '', dt.datetime(2020, 2, 29), dt.datetime(1999, 12, 31, 23, 59, 58), 'eval', '{x}', '%s', '#'])
@@ -100,6 +103,14 @@ def make_case(rc, k=[0]):
             if [dict(x) for x in cls().get_sheets_size()] != sizes0 or dict(cls().get_titles()) != {TITLES[i]: i for i in range(len(planted))}:
                 fail = 'after another executor of the same class was given a far-away override, a new object reports sizes %r (workbook: %r)' % (
                     cls().get_sheets_size(), sizes0)
+            # ONE long-lived Executor is handed every translated class in turn: what it reports is the class it holds now
+            SHARED.set_executed_class(class_object=cls)
+            for i, m in enumerate(planted):
+                for (c, r) in list(m)[:6] + [(1, 1), (2, 2)]:
+                    a_ = I.outcome(lambda: SHARED.get_cell(I.Cell(i, c - 1, r - 1)).value)
+                    b_ = I.outcome(lambda: e.get_cell(I.Cell(i, c - 1, r - 1)).value)
+                    if fail is None and (a_[0] != b_[0] or type(a_[1]) is not type(b_[1]) or (a_[1] != b_[1] and type(a_[1]).__name__ != 'EmptyCell')):
+                        fail = 'an Executor that held another class before reports %r for %s!%s%d, a fresh Executor %r' % (a_, TITLES[i], get_column_letter(c), r, b_)
             for i, m in enumerate(planted):
                 if fail:
                     break
